@@ -395,6 +395,9 @@ fn main() {
   if args.stream == "sched" {
     dup_scenario(&mut out, &mut dist, &scratch);
   }
+  if args.stream == "reorg" {
+    reorg::no_savepoint_scenario(&mut rng.fork(), &mut out, &mut dist, &scratch);
+  }
   for case in 0..args.cases {
     let mut r = rng.fork();
     match args.stream.as_str() {
